@@ -1,0 +1,9 @@
+//go:build verif
+
+package tpmeventlog
+
+// Hook for the external verification harness (/verif, property C14). Only
+// compiled with `-tags verif`.
+
+// VerifIsPhysAddr calls isPhysAddr.
+func VerifIsPhysAddr(addr, imageSize uint64) bool { return isPhysAddr(addr, imageSize) }
